@@ -21,6 +21,18 @@
 #include <string>
 
 bool mangle_names = true;     // defined in interrogate.cxx (a main file, never linked)
+#ifdef VERIF_NATIVE
+// further globals of interrogate.cxx that the natively linked (never executed here) emitter code refers to
+#include "interrogate.h"
+#include "cppParser.h"
+CPPParser parser;
+CPPVisibility min_vis = V_published;
+bool output_function_names, manage_reference_counts, watch_asserts, true_wrapper_names, track_interpreter, generate_spam,
+     left_inheritance_requires_upcast = true, save_unique_names, no_database, convert_strings, output_function_pointers,
+     output_module_specific, build_c_wrappers, build_python_wrappers, build_python_obj_wrappers, build_python_native;
+std::string library_name, module_name, output_data_basename;
+Filename output_code_filename, output_data_filename;
+#endif
 int get_type_sort(CPPType *type);
 
 #ifndef NL
@@ -168,8 +180,14 @@ static void __attribute__((noinline)) set_names(int variant) {
 extern "C" void harness_c14_forset_kwname() {
   for (int role = 0; role < 2; role++) {
     for (int c = 0; c < NL; c++) {
+#ifdef CONCRETE_NAMES
+      // quick tier: the letters are those of "width" / "scale" (a self-comparison of a string with symbolic letters, as a
+      // broken name check may perform, is not folded by symbolic execution and makes the token count symbolic)
+      char ch = (role == 0 ? "width" : "scale")[c % 5];
+#else
       char ch = nondet_char();
       ASSUME(ch >= 'a' && ch <= 'z');
+#endif
       sym[role][c] = ch;
     }
   }
